@@ -1498,7 +1498,8 @@ class C09(SearchCheck):
         answers = vlib.read_lines(ipath)
         out = os.path.join(self.wd, "stop.req")
         n = 0
-        cap = 60 if self.tier == "quick" else 10 ** 9
+        # (thorough: every poll of the shallow base searches — a few thousand — and a sample of 3,000 of the deep ones)
+        cap = 60 if self.tier == "quick" else 3000
         with open(out, "w") as f:
             for r, a in zip(reqs, answers):
                 jobs = parse_jobs(a)
